@@ -54,3 +54,14 @@ func lemmaEntryAccounted(txn *Txn, e *Entry, ts uint64) (int64, int64, error) {
 	actual := e.estimateSizeAndSetThreshold(txn.db.valueThreshold())
 	return accounted, actual, nil
 }
+
+// lemmaIVInjective: C23, "no two encrypted records of one log file share a data key and IV":
+// different offsets give different IVs for the same base IV.
+//
+// @ func lemmaIVInjective
+// @   props C23
+// @   requires lf != nil && len(lf.baseIV) >= 12
+// @   ensures[injective] o1 != o2 ==> !(bytes(result0) == bytes(result1))
+func lemmaIVInjective(lf *logFile, o1, o2 uint32) ([]byte, []byte) {
+	return lf.generateIV(o1), lf.generateIV(o2)
+}
